@@ -634,6 +634,11 @@ def part_c(ck):
                 "cascade_chain", "elementwise", "weights", "c10_pool_chain", "c10_slice_upscale", "c10_asym_dilation", "c10_asym_dilation",
                 "c10_asym_stride"]
     outs = pipe_common.run_corpus(ck, n, profiles=profiles, want={"extra": L.extract})
+    if ck.replay_arg is None:
+        # round 6: 2x resize -> stride {3, 2, 1} consumer in one cascade that keeps the minimal stripes (harness/gen_resizecasc.py,
+        # the sweep's CASCADE_MIN configurations); in addition, the population above is unchanged
+        outs += pipe_common.run_corpus(ck, 36 * (4 if ck.thorough else 1), profiles=["sweep:resize_cascade"], want={"extra": L.extract},
+                                       corpus_first=False)
     reqs, owners = [], []      # Lean Spec requests on real artefacts
     corr, corr_real, corr_owner = [], [], []   # model == real (issue order, create_padding)
     n_stripes = 0
